@@ -2,6 +2,7 @@ package rockredis
 
 import (
 	"errors"
+	"strings"
 	"time"
 
 	"github.com/gobwas/glob"
@@ -73,6 +74,10 @@ func buildMatchRegexp(match string) (glob.Glob, error) {
 	var r glob.Glob
 
 	if len(match) > 0 {
+		if strings.IndexByte(match, 0) >= 0 {
+			// the glob will stop at the zero byte and match more than it should
+			return nil, errors.New("invalid match pattern: zero byte is not supported")
+		}
 		if r, err = glob.Compile(match); err != nil {
 			return nil, err
 		}
